@@ -93,15 +93,19 @@ pub fn outcome_class(s: &str) -> &str {
 
 /// Full event for one DOM and root selection.
 pub fn bin_event(ep: &str, dom: &WeakDom, roots: &[Ref], with_bytes: bool) -> Value {
+    bin_event_modes(ep, dom, roots, with_bytes, &[CompressionType::None, CompressionType::Lz4, CompressionType::Zstd])
+}
+
+pub fn bin_event_modes(ep: &str, dom: &WeakDom, roots: &[Ref], with_bytes: bool, modes: &[CompressionType]) -> Value {
     let before = pforest(dom, roots);
     let mut ev = json!({"ep": ep, "op": "bin_case", "before": before, "modes": {}});
-    for c in [CompressionType::None, CompressionType::Lz4, CompressionType::Zstd] {
+    for c in modes.iter().copied() {
         let cname = compression_name(c);
         let mut m = json!({});
         match write_bin(dom, roots, c) {
             Ok(data) => {
                 m["write"] = json!("ok");
-                if with_bytes || c == CompressionType::None {
+                if with_bytes || (c == CompressionType::None && modes.len() > 1) {
                     match split_file(&data) {
                         Ok(f) => m["file"] = f,
                         Err(e) => m["file"] = json!({"broken": e}),
@@ -255,6 +259,95 @@ pub fn run_descriptors(seed: u64, per_case: usize, out: &mut dyn Write) {
             }
         }
         let ev = bin_event(&format!("desc:{}:{}", seed, ci), &dom, &roots, ci % 10 == 0);
+        serde_json::to_writer(&mut *out, &ev).unwrap();
+        out.write_all(b"\n").unwrap();
+    }
+}
+
+/// A value for property `name` of class `class`, typed by the descriptor's own declared type
+/// (alias spellings have their own type, e.g. Color3uint8), distinct per `salt`.
+pub fn value_for_spelling(class: &str, name: &str, salt: u32) -> rbx_dom_weak::types::Variant {
+    use rbx_dom_weak::types::*;
+    use rbx_reflection::DataType;
+    let db = rbx_reflection_database::get();
+    let mut cur = db.classes.get(class);
+    let mut ty = None;
+    while let Some(c) = cur {
+        if let Some(p) = c.properties.get(name) {
+            ty = Some(match &p.data_type {
+                DataType::Value(t) => *t,
+                DataType::Enum(_) => VariantType::Enum,
+                _ => VariantType::String,
+            });
+            break;
+        }
+        cur = c.superclass.as_ref().and_then(|s| db.classes.get(s.as_ref()));
+    }
+    let s = salt;
+    match ty {
+        Some(VariantType::Color3) => Variant::Color3(Color3::new((s % 256) as f32 / 255.0, ((s * 7) % 256) as f32 / 255.0, 0.5)),
+        Some(VariantType::Color3uint8) => Variant::Color3uint8(Color3uint8::new((s % 200) as u8 + 1, (s * 3 % 250) as u8, 9)),
+        Some(VariantType::BrickColor) => {
+            let nums = crate::gen::BRICK_NUMBERS;
+            Variant::BrickColor(BrickColor::from_number(nums[(s as usize) % nums.len()]).unwrap())
+        }
+        Some(VariantType::Vector3) => Variant::Vector3(Vector3::new(s as f32, 2.0, 3.5)),
+        Some(VariantType::Bool) => Variant::Bool(s % 2 == 0),
+        Some(VariantType::Enum) => Variant::Enum(Enum::from_u32(if name == "Font" { [1u32, 3, 10, 17, 45][(s as usize) % 5] } else { 1 + s % 2 })),
+        Some(VariantType::Font) => Variant::Font(Font::new(&format!("rbxasset://fonts/families/F{}.json", s), FontWeight::Bold, FontStyle::Italic)),
+        Some(VariantType::ContentId) => Variant::ContentId(format!("rbxassetid://{}", 100 + s).into()),
+        Some(VariantType::Content) => Variant::Content(Content::from_uri(format!("rbxassetid://{}", 900 + s))),
+        Some(VariantType::String) => Variant::String(format!("text{}", s)),
+        Some(VariantType::Float32) => Variant::Float32(s as f32 + 0.25),
+        Some(VariantType::Int32) => Variant::Int32(s as i32),
+        Some(other) => {
+            let mut rng = StdRng::seed_from_u64(s as u64);
+            crate::gen::value_of(other, &mut rng, &[], false).unwrap_or(Variant::Int32(s as i32))
+        }
+        None => match name.as_bytes().last() {
+            Some(b'S') => Variant::String(format!("u{}", s)),
+            Some(b'V') => Variant::Vector3(Vector3::new(s as f32, 0.0, 1.0)),
+            _ => Variant::Int32(1000 + s as i32),
+        },
+    }
+}
+
+/// Populations enumerated by TLC (ndjson: {"ep":..,"class":..,"insts":[[names..]..]}): build the
+/// DOM, write/read it, and also write every instance on its own (C08: success of the whole is
+/// implied by success of each).
+pub fn run_populations(input: &mut dyn std::io::BufRead, out: &mut dyn Write) {
+    use std::io::BufRead as _;
+    let mut text = String::new();
+    input.read_to_string(&mut text).unwrap();
+    std::panic::set_hook(Box::new(|_| {}));
+    for line in text.lines() {
+        if line.trim().is_empty() {
+            continue;
+        }
+        let case: Value = serde_json::from_str(line).unwrap();
+        let class = case["class"].as_str().unwrap();
+        let mut dom = WeakDom::new(rbx_dom_weak::InstanceBuilder::new("DataModel"));
+        let root = dom.root_ref();
+        let mut roots = Vec::new();
+        for (i, names) in case["insts"].as_array().unwrap().iter().enumerate() {
+            let id = case["ids"].as_array().map(|a| a[i].as_u64().unwrap() as u32).unwrap_or(i as u32 + 1);
+            let mut b = rbx_dom_weak::InstanceBuilder::new(class).with_name(format!("I{}", id));
+            for (j, n) in names.as_array().unwrap().iter().enumerate() {
+                let n = n.as_str().unwrap();
+                b.add_property(n, value_for_spelling(class, n, id * 10 + j as u32));
+            }
+            roots.push(dom.insert(root, b));
+        }
+        let mut ev = bin_event_modes(case["ep"].as_str().unwrap(), &dom, &roots, false, &[CompressionType::None]);
+        ev["op"] = json!("bin_pop");
+        let singles: Vec<Value> = roots
+            .iter()
+            .map(|r| match write_bin(&dom, &[*r], CompressionType::None) {
+                Ok(_) => json!("ok"),
+                Err(e) => json!(outcome_class(&e)),
+            })
+            .collect();
+        ev["singles"] = json!(singles);
         serde_json::to_writer(&mut *out, &ev).unwrap();
         out.write_all(b"\n").unwrap();
     }
